@@ -4,5 +4,7 @@ func init() {
 	reg("C11", propCfg{Pkg: "./props/c11", Rule: "reference conversion table (Go conversion syntax) and recording reflect.MakeFunc hosts vs anko",
 		Assumptions: assume(
 			"the reference table props/c11/conv.go encodes Go's conversion rules: identity for interface{}, numeric conversions, integer->string rune strings, string<->[]byte/[]rune, element-wise slices/arrays/maps, zero value for nil, error otherwise",
-			"not asserted beyond \"no host panic\" (statement silent): one-character string -> byte/rune, pointer vs non-pointer and non-nil pointer re-typing, float outside the target integer range, integer -> float32 where one- and two-step rounding differ, surplus spread elements and arguments of parameterless functions (dropped, pinned by the repository's tests), spread value landing in a fixed slot of a variadic function, more callback results than declared, script callbacks of another arity, field writes through non-pointer receivers")})
+			"string -> byte/rune (Go has no such conversion, the code special-cases one character): several characters must be an error; one character to rune, one ASCII character to byte: an error or exactly that character; the empty string, strings that are not UTF-8 and one non-ASCII character to byte are not judged",
+			"go calls (sub-check gocall): a host function that has not been invoked 20 s after a go statement that returned without error counts as never invoked",
+			"not asserted beyond \"no host panic\" (statement silent): pointer vs non-pointer and non-nil pointer re-typing, float outside the target integer range, integer -> float32 where one- and two-step rounding differ, surplus spread elements and arguments of parameterless functions (dropped, pinned by the repository's tests), spread value landing in a fixed slot of a variadic function, more callback results than declared, script callbacks of another arity, field writes through non-pointer receivers")})
 }
